@@ -65,26 +65,25 @@ def add_corners_if_it_is_an_uri(a_candidate_uri):
 
 
 def decide_literal_type(a_literal, base_namespace=None):
-    if there_is_arroba_after_last_quotes(a_literal):
+    # Only what follows the closing quotes (language tag or datatype) decides the type, never the lexical form.
+    suffix = a_literal[a_literal.rfind('"') + 1:].strip()
+    if suffix.startswith("@"):
         return LANG_STRING_TYPE
-    elif "\"^^" not in a_literal:
+    elif not suffix.startswith("^^"):
         return STRING_TYPE
-    elif "xsd:" in a_literal:
-        return XSD_NAMESPACE + a_literal[a_literal.find("xsd:") + 4:]
-    elif "rdf:" in a_literal:
-        return RDF_SYNTAX_NAMESPACE + a_literal[a_literal.find("rdf:")+ 4:]
-    elif "dt:" in a_literal:
-        return DT_NAMESPACE + a_literal[a_literal.find("dt:")+ 3:]
-    elif "geo:" in a_literal:
-        return OPENGIS_NAMESPACE + a_literal[a_literal.find("geo:") + 4:]
-    elif XSD_NAMESPACE in a_literal or RDF_SYNTAX_NAMESPACE in a_literal \
-            or DT_NAMESPACE in a_literal or OPENGIS_NAMESPACE in a_literal:
-        return a_literal[a_literal.find("\"^^")+4:-1]
-    elif a_literal.strip().endswith(">"):
-        candidate_type = a_literal[a_literal.find("\"^^") + 4:-1]  # plain uri, no corners
+    elif suffix.startswith("^^<") and suffix.endswith(">"):
+        candidate_type = suffix[3:-1]  # plain uri, no corners
         if base_namespace is not None and not candidate_type.startswith("http"):
             return base_namespace + candidate_type
         return candidate_type
+    elif suffix.startswith("^^xsd:"):
+        return XSD_NAMESPACE + suffix[6:]
+    elif suffix.startswith("^^rdf:"):
+        return RDF_SYNTAX_NAMESPACE + suffix[6:]
+    elif suffix.startswith("^^dt:"):
+        return DT_NAMESPACE + suffix[5:]
+    elif suffix.startswith("^^geo:"):
+        return OPENGIS_NAMESPACE + suffix[6:]
     else:
         raise RuntimeError("Unrecognized literal type:" + a_literal)
 
